@@ -11,7 +11,7 @@ CHECKS = {
          "Trusts the reference verifier for labelling description edits and the engine's API semantics; candidates for a wrong ACCEPT are re-run under bit decomposition before being reported.",
          "DESIGN.md section 4 (C01)"),
  "C02": ("generated configuration sweep (proof x prefix x range-check flavour x wrapper) with differential cross-check against gnark's engine and an interval-bound invariant monitor",
-         "All five real proofs, their k-round prefixes, three range-check flavours (plus the forcing env var), both wrappers and gnark's own test engine must ACCEPT; a bound monitor checks over one execution per inner circuit that at all ~190k witnessed reductions the largest honest operand fits the enforced quotient width.",
+         "All five real proofs, their k-round prefixes, three range-check flavours (plus the forcing env var), both wrappers and gnark's own test engine must ACCEPT; a bound monitor checks over one execution per inner circuit that at all ~190k witnessed reductions the largest honest operand fits the enforced quotient width. Also: the whole circuit compiled with gnark's R1CS/SCS builders (commit checker) and solved through the hint registry; 40 circuits built in one process without emptying the chip cache; the same proofs against their description with a lower proof-of-work difficulty; zero-query-round instances whose proof document carries arbitrary pow_witness values (0, 2^63, p-1, ...).",
          "Completeness for all valid proofs is limited to 5 real proofs and their 140 prefixes (no plonky2 prover offline). Monitor transfer functions are part of the trusted base.",
          "DESIGN.md section 4 (C02)"),
  "C03": ("property-based testing (rapid) of the wrapper with generated limb/value assignments against an integer oracle, plus interval-bound invariant on the packing equality",
@@ -27,49 +27,49 @@ CHECKS = {
          "Monitor transfer functions and engine semantics are trusted; Inverse(0) output is a documented don't-care; evidence, not proof.",
          "DESIGN.md section 4 (C05)"),
  "C06": ("property-based testing (rapid) with an integer oracle, differential across evaluation-engine flavours, gnark's test engine and compiled R1CS/SCS systems, with dishonest limb hints",
-         "Boundary-heavy generated values x {RangeCheck, RangeCheckWithMaxBits(n)} x {native / commit / bit decomposition / forced} on the engine, on gnark's own engine and on compiled R1CS and SCS systems (commit mode padded to the 16-bit regime); accepted iff in range, also when the limb hint is replaced by dishonest outputs.",
+         "Boundary-heavy generated values x {RangeCheck, RangeCheckWithMaxBits(n)} x {native / commit / bit decomposition / forced} on the engine, on gnark's own engine and on compiled R1CS and SCS systems (commit mode padded to the 16-bit regime); accepted iff in range, also when the limb hint is replaced by dishonest outputs. Also: gnark's own bit-decomposition hint answered dishonestly, DivUnchecked(0,0) wires chosen by the prover, field fractions y/2^k as values, and 'populations' - one check inside circuits of stratified sizes and at the transition/tie sizes of gnark's limb-width optimiser, compiled for R1CS and SCS under the commit checker (what compiles must be exact).",
          "gnark v0.9.1 solver and std/rangecheck trusted as shipped; native-range-checker builder is a thin wrapper doing bit decomposition.",
          "DESIGN.md section 4 (C06)"),
  "C17": ("exhaustive enumeration of leaf positions x generated offsets against a must-not-accept oracle",
-         "Every Goldilocks-valued leaf of the proof is replaced by value + k*p (k in {1,2,2^64,kmax}); the whole verifier must not ACCEPT. Quick enumerates all 10.9k positions of one proof (k=1) plus strided samples of the others; thorough enumerates all positions x 4 offsets x 5 proofs (exhaustive over positions).",
+         "Every Goldilocks-valued leaf of the proof is replaced by value + k*p (k in {1,2,2^64,kmax}); the whole verifier must not ACCEPT. Quick enumerates all 10.9k positions of one proof (k=1) plus strided samples of the others; thorough enumerates all positions x 4 offsets x 5 proofs (exhaustive over positions). Also: the verifier's canonical-form stage alone on generated, edge-heavy residues (canonical accepted, residue+m*p rejected, also with prover-chosen DivUnchecked(0,0) wires), one position per leaf kind on the circuit compiled to R1CS with the commit checker, and the proofs checked against a description without grinding.",
          "Native engine flavour has exact range semantics (C06); candidates are re-checked under bit decomposition.",
          "DESIGN.md section 4 (C17)"),
  "C07": ("property-based testing (rapid) with a native reference model; exhaustive edge-triple enumeration",
-         "Generated operand triples (all 343 edge combinations + thousands of random ones) are pushed through every base-field gadget on an adversarial evaluation engine under two range-check flavours and compared with independent uint64 Goldilocks arithmetic; reduce inputs are drawn on both sides of the 2^b*p limit. Exploration, not proof: it shows agreement on everything generated.",
+         "Generated operand triples (all 343 edge combinations + thousands of random ones) are pushed through every base-field gadget on an adversarial evaluation engine under two range-check flavours and compared with independent uint64 Goldilocks arithmetic; reduce inputs are drawn on both sides of the 2^b*p limit. Straight-line programs of 2..12 gadget calls run on the engine and compiled to R1CS/SCS; a fraction of all cases supplies operands as circuit constants. Exploration, not proof: it shows agreement on everything generated.",
          "Trusts the engine's frontend.API semantics (cross-validated against gnark's test engine and compiled R1CS/SCS in C06) and ref's 60-line field arithmetic (validated by real-proof acceptance).",
          "DESIGN.md section 4 (C07)"),
  "C08": ("property-based testing (rapid) against a reference GF(p^2)/algebra model, with metamorphic field laws",
          "Edge-heavy operand tuples through every extension-field and algebra gadget (27 operations incl. exponentiation up to 64-bit exponents, power-reduction and inner products up to 300 terms, partial barycentric interpolation) compared with 30 lines of reference arithmetic; inverse/division of zero must be rejected; a*a^-1=1, (a/b)*b=a, a^(m+n)=a^m*a^n evaluated in circuit.",
          "Reference arithmetic is trusted (validated by real-proof acceptance).", "DESIGN.md section 4 (C08)"),
  "C09": ("property-based testing (rapid) against a naive reference Poseidon; fault injection at every hint call for functionality",
-         "Generated states and input sequences (canonical and value+k*p) through the permutation, HashNoPad, HashNToMNoPad and the extension-layer helpers compared with the naive 30-round reference (the circuit uses the optimised schedule); all 1650 hint calls of a permutation are substituted by dishonest tuples and must be rejected (no second output).",
+         "Generated states and input sequences (canonical and value+k*p) through the permutation, HashNoPad, HashNToMNoPad and the extension-layer helpers compared with the naive 30-round reference (the circuit uses the optimised schedule); all 1650 hint calls of a permutation are substituted by dishonest tuples and must be rejected (no second output). Extreme and round-constant-cancelling states; hashes of several prefixes of one vector in one circuit; constant operands; second evaluation in one circuit.",
          "Reference validated by plonky2's published zero-vector and by real-proof acceptance.", "DESIGN.md section 4 (C09)"),
  "C10": ("property-based testing (rapid) against a reference PoseidonBN128; two-input injectivity properties; solver hint override on compiled R1CS/SCS",
-         "Permutation, sponge, shortcut, two-to-one and hash-to-field conversion compared with the reference on edge/random inputs across the length boundaries; injectivity of the <=3-element packing and of the 56-bit chunking checked as two-input properties in circuit; on compiled systems a dishonest bit decomposition of hash+r is rejected.",
+         "Permutation, sponge, shortcut, two-to-one and hash-to-field conversion compared with the reference on edge/random inputs across the length boundaries; injectivity of the <=3-element packing and of the 56-bit chunking checked as two-input properties in circuit; on compiled systems a dishonest bit decomposition of hash+r is rejected. Hashes of several prefixes of one vector in one circuit.",
          "BN254 reference shares the optimised iden3 schedule with frozen constants (independence rests on KAT + real Merkle paths).", "DESIGN.md section 4 (C10)"),
  "C11": ("model-based (stateful) property testing of the challenger against a reference duplex sponge; differential transcripts; metamorphic sensitivity",
-         "Histories of up to 200 observe/squeeze operations are executed in circuit and compared squeeze by squeeze with the reference challenger; GetChallenges on the 5 real proofs and on same-shape random transcripts equals the reference transcript; changing one observed value changes all later and no earlier challenges.",
+         "Histories of up to 200 observe/squeeze operations are executed in circuit and compared squeeze by squeeze with the reference challenger; GetChallenges on the 5 real proofs and on same-shape random transcripts equals the reference transcript; changing one observed value changes all later and no earlier challenges. Transcripts are derived 1-3 times on one chip and under configuration variants (proof-of-work bits, query rounds, number of public inputs).",
          "Reference transcript reproduces the challenge constants hard-coded in tests/fri_test.go.", "DESIGN.md section 4 (C11)"),
  "C12": ("property-based testing (rapid) with backwards-constructed Merkle trees and generated single-element corruptions against a reference recomputation",
-         "Random trees (height 4..12, leaf width 1..140) with one corruption drawn from nine kinds, plus the real openings of the corpus; accept iff the reference recomputation equals the selected cap entry (unselected-entry changes must still accept).",
+         "Random trees (height 4..12, leaf width 1..140) with one corruption drawn from nine kinds, plus the real openings of the corpus; accept iff the reference recomputation equals the selected cap entry (unselected-entry changes must still accept). Also non-boolean single bits and a forged pair (uncommitted leaf + crafted sibling + non-boolean 'bit'), on the engine and on the gadget compiled to R1CS and SCS.",
          "Reference PoseidonBN128 (C10).", "DESIGN.md section 4 (C12)"),
  "C13": ("property-based testing (rapid) of FRI sub-gadgets and of whole query rounds constructed backwards with a reference, with generated single-ingredient mutations",
          "Sub-gadget outputs equal the reference on random inputs (degenerate points expect REJECT); query rounds with 1..3 folds are constructed backwards, Merkle-sealed, then one ingredient is changed with re-sealing so that only the algebra can reject; accept iff the reference round check passes; all real rounds too.",
          "Reference FRI accepts the 140 real rounds.", "DESIGN.md section 4 (C13)"),
  "C14": ("property-based testing (rapid) with an integer oracle over response x difficulty x flavour; natively ground witnesses substituted into real transcripts",
-         "assertLeadingZeros accepts iff response < 2^(64-b) for b in 1..63 (and 16/32/48 under the commit flavour); VerifyFriProof with only the response replaced; PoW witnesses (random and ground) substituted into real transcripts with the response recomputed in circuit.",
+         "assertLeadingZeros accepts iff response < 2^(64-b) for b in 1..63 (and 16/32/48 under the commit flavour); VerifyFriProof with only the response replaced; PoW witnesses (random and ground) substituted into real transcripts with the response recomputed in circuit. The check is also compiled for R1CS/SCS under the commit checker inside circuits of stratified sizes (what compiles must be exact).",
          "Reference transcript (C11).", "DESIGN.md section 4 (C14)"),
  "C15": ("property-based testing (rapid) over a gate-identifier grammar: differential against reference gate polynomials plus a semantic honest-row oracle",
          "For all 14 gate types and generated parameters the constraint vector equals the reference element-wise on random GF(p^2) rows; rows produced by semantic witness generators (run the computation, record witnesses) zero every constraint; filtered sums over random selector layouts equal the reference position-wise.",
          "Reference gates validated by real proofs (13 of 14 types) and by the honest-row oracle.", "DESIGN.md section 4 (C15)"),
  "C16": ("property-based testing (rapid): opening sets with reference-solved quotients (accept side) and generated single-coordinate perturbations (reject side) on real and synthetic descriptions",
-         "Quotient chunk 0 is solved so that the identity holds, then one opening/challenge coordinate is perturbed; PlonkChip.Verify must agree with the reference on real descriptions and on random synthetic ones (1..3 rounds, up to 80 routed wires, random gate sets); evalVanishingPoly compared value by value.",
+         "Quotient chunk 0 is solved so that the identity holds, then one opening/challenge coordinate is perturbed; PlonkChip.Verify must agree with the reference on real descriptions and on random synthetic ones (1..3 rounds, up to 80 routed wires, random gate sets); evalVanishingPoly compared value by value. Synthetic descriptions reach the circuit as plonky2-style JSON through the repository's reader; a fifth of the cases evaluates 2-3 times on one chip.",
          "Reference vanishing polynomial (accepts real proofs).", "DESIGN.md section 4 (C16)"),
  "C18": ("grammar-based property testing (rapid) with repeated resolution to sweep map iteration order",
          "Identifiers generated from plonky2 Debug formats: supported ones resolve 200 times to deeply-equal gates whose Id() states exactly the given parameters and whose behaviour equals the reference gate; unsupported gates and D != 2 variants are refused on all 200 resolutions; hiding-enabled common data is refused.",
          "Formats of unsupported gates are written from memory of the plonky2 sources.", "DESIGN.md section 4 (C18)"),
  "C19": ("model-based document generation (rapid): round-trip of every number by name and position, one-value differential, generated corruptions from the listed classes",
-         "Random-shape documents are read by the repository's readers and every leaf (name and value, schema order) is compared with the model; one edited value changes exactly that leaf; listed malformed values are refused at read, deserialise or witness time; common-data documents arrive field by field.",
+         "Random-shape documents are read by the repository's readers and every leaf (name and value, schema order) is compared with the model; one edited value changes exactly that leaf; listed malformed values are refused at read, deserialise or witness time; common-data documents arrive field by field. Histories: 2-4 documents read before any is deserialised, then deserialised in a drawn order.",
          "Signed decimal strings and JSON null are outside the listed classes (accepted today; not generated).", "DESIGN.md section 4 (C19)"),
  "C20": ("generated shape mutation of accepted instances (reflect-enumerated list kinds x 5 operations) and reference-labelled configuration edits against a never-accept oracle",
          "Every list kind of the proof structure (30 kinds; first/middle/last round) is altered by drop-first/drop-last/duplicate-last/append-zero/empty in template and assignment alike, and FRI configuration constants are edited coherently against the unchanged proof; the whole verifier must REFUSE or REJECT, never ACCEPT.",
